@@ -548,6 +548,9 @@ func replayC06(w *World, ob *Obligation, vc *VC) (bool, string) {
 	if strings.Contains(ob.Name, "handleTransferResult#post") {
 		return replayC06Unreported(w)
 	}
+	if strings.Contains(ob.Name, "tqClient).Batch#") {
+		return replayC06NullObject(w, ob)
+	}
 	if !strings.Contains(ob.Name, "enqueueAndCollectRetriesFor#assert@loop_4_entry") {
 		return false, "no replay template for this obligation\n"
 	}
@@ -1050,6 +1053,61 @@ func TestVerifReplayC06Unreported(t *testing.T) {
 }
 `
 	out, passed, err := runOverlayTest(w.repoDir, "tq", "zz_verif_replay_test.go", test, "TestVerifReplayC06Unreported")
+	if err != nil {
+		return false, "replay could not run: " + err.Error() + "\n"
+	}
+	return !passed && strings.Contains(out, "REPRODUCED"), trimOut(out)
+}
+
+// C06, nil dereference while handling the batch response: the pointer the
+// obligation is about is an element of the server's "objects" array (or an
+// entry of an object's "actions").  JSON null is the value that makes it nil.
+
+func replayC06NullObject(w *World, ob *Obligation) (bool, string) {
+	body := `{"transfer":"basic","objects":[null]}`
+	what := "a null element in the objects array"
+	if strings.Contains(ob.Name, "createdAt") {
+		body = `{"transfer":"basic","objects":[{"oid":"4d7a214614ab2935c943f9e0ff69d22eadbb8f32b1258daaa5e2ca24d17e2393","size":12,"actions":{"download":null}}]}`
+		what = "a null action"
+	}
+	test := `package tq
+
+import (
+	"net/http"
+	"net/http/httptest"
+	"testing"
+
+	"github.com/git-lfs/git-lfs/v3/lfsapi"
+	"github.com/git-lfs/git-lfs/v3/lfshttp"
+)
+
+func TestVerifReplayC06Null(t *testing.T) {
+	srv := httptest.NewServer(http.HandlerFunc(func(w http.ResponseWriter, r *http.Request) {
+		w.Header().Set("Content-Type", "application/vnd.git-lfs+json")
+		w.Write([]byte(` + "`" + body + "`" + `))
+	}))
+	defer srv.Close()
+	cli, err := lfsapi.NewClient(lfshttp.NewContext(nil, nil, map[string]string{"lfs.url": srv.URL}))
+	if err != nil {
+		t.Fatal(err)
+	}
+	defer func() {
+		if r := recover(); r != nil {
+			t.Errorf("REPRODUCED: the batch response contained ` + what + `; handling it panicked: %v", r)
+		}
+	}()
+	c := &tqClient{Client: cli}
+	bRes, err := c.Batch("origin", &batchRequest{Operation: "download", Objects: []*Transfer{{Oid: "4d7a214614ab2935c943f9e0ff69d22eadbb8f32b1258daaa5e2ca24d17e2393", Size: 12}}})
+	if err == nil && bRes != nil {
+		for _, o := range bRes.Objects {
+			if o == nil {
+				t.Errorf("REPRODUCED: a response with a null object was handed on without error")
+			}
+		}
+	}
+}
+`
+	out, passed, err := runOverlayTest(w.repoDir, "tq", "zz_verif_replay_test.go", test, "TestVerifReplayC06Null")
 	if err != nil {
 		return false, "replay could not run: " + err.Error() + "\n"
 	}
